@@ -574,6 +574,6 @@ def runStatic (line : String) : String :=
   | _ => "bad-op"
 
 def streams : List (String × (String → String)) :=
-  [("c01", runC01), ("c01_static", runStatic)]
+  [("c01", runC01), ("c01_static", runStatic), ("c17_macro", runC01)]
 
 end EmitModel.Driver.C01
